@@ -27,6 +27,16 @@
 //!   `xstress <i> cause= n=` | `w=<kind:result:st:name:pid:pg:mon:kids:link:post,…> sup=<events> st=<final>`
 //!                            (free-running tasks on a multi-threaded runtime; oracle only)
 //!
+//!   children wrappers (E-LTS, quiescent points of the controller's paused runtime; k named, pg-joined children under one
+//!   supervisor, handlers gated so that a child can sit in a handler):
+//!   `wcase <kind> t=<0|1> <s0,s1,…>` | `ok kids=<st,…>`     kind = stop|drain (`stop_children_and_wait` / `drain_children_and_wait`),
+//!                            t=1: with `Some(10 s)`; child states idle | busy | stopreq (busy + a racer's `stop()`) |
+//!                            drainreq (busy + a racer's `drain()`) | dead (stopped before the call)
+//!   `wrap`                  | `w=<done|pending> kids=<st,…> acc=<0|1,…>[ snap=<j:st:name:pid:pg:link:post:ev,…>]`
+//!                            acc = the request of THIS call is accepted by child j; snap = taken by the wrapper task the moment
+//!                            the wrapper returned, for every child of the `get_children()` snapshot
+//!   `release <j>` / `kill <j>` / `advance` / `wend`   | `w=… kids=…[ snap=…]`
+//!
 //! usage: exitrace --seed S --cases N --out DIR [--enum-cap K] [--stress N] [--replay-ops f1,f2 [--only-replay 1]]
 
 use std::future::Future;
@@ -923,12 +933,279 @@ fn stress_case(env: &mut Env, srt: &tokio::runtime::Runtime, rng: &mut Rng, idx:
     srt.block_on(async { tokio::time::sleep(Duration::from_millis(1)).await });
 }
 
+// ------------------------------------------------------------------------------------------
+// children wrappers: stop_children_and_wait / drain_children_and_wait (quiescent points)
+// ------------------------------------------------------------------------------------------
+
+enum WMsg {
+    Block,
+}
+impl Message for WMsg {}
+
+struct WChild {
+    post: Arc<AtomicBool>,
+    gate: Arc<tokio::sync::Semaphore>,
+}
+impl Actor for WChild {
+    type Msg = WMsg;
+    type State = ();
+    type Arguments = ();
+    async fn pre_start(&self, _: ActorRef<WMsg>, _: ()) -> Result<(), ActorProcessingErr> {
+        Ok(())
+    }
+    async fn handle(&self, _: ActorRef<WMsg>, m: WMsg, _: &mut ()) -> Result<(), ActorProcessingErr> {
+        match m {
+            WMsg::Block => {
+                if let Ok(p) = self.gate.acquire().await {
+                    p.forget();
+                }
+            }
+        }
+        Ok(())
+    }
+    async fn post_stop(&self, _: ActorRef<WMsg>, _: &mut ()) -> Result<(), ActorProcessingErr> {
+        self.post.store(true, Ordering::SeqCst);
+        Ok(())
+    }
+}
+
+#[derive(Clone, Debug, PartialEq)]
+enum WOp {
+    Wrap,
+    Release(usize),
+    Kill(usize),
+    Advance,
+}
+
+fn wrapper_case(env: &mut Env, kind: &str, timed: bool, states: &[String], script: &[WOp]) {
+    let case_no = CASE_NO.fetch_add(1, Ordering::SeqCst);
+    let k = states.len();
+    let events = Arc::new(Mutex::new(Vec::new()));
+    let group = format!("c06w-group-{case_no}");
+    let sup_ref = env.crt.block_on(async { Actor::spawn(None, Sup { events: events.clone() }, ()).await.expect("spawn sup").0 });
+    let sup = sup_ref.get_cell();
+    let mut kids: Vec<ActorRef<WMsg>> = Vec::new();
+    let mut posts = Vec::new();
+    let mut gates = Vec::new();
+    let mut names = Vec::new();
+    for j in 0..k {
+        let post = Arc::new(AtomicBool::new(false));
+        let gate = Arc::new(tokio::sync::Semaphore::new(0));
+        let name = format!("c06w-{case_no}-{j}");
+        let (c, _) = env.crt.block_on(async {
+            Actor::spawn_linked(Some(name.clone()), WChild { post: post.clone(), gate: gate.clone() }, (), sup.clone()).await.expect("spawn child")
+        });
+        ractor::pg::join(group.clone(), vec![c.get_cell()]);
+        kids.push(c);
+        posts.push(post);
+        gates.push(gate);
+        names.push(name);
+    }
+    quiesce(&env.crt);
+    for (j, st) in states.iter().enumerate() {
+        match st.as_str() {
+            "idle" => {}
+            "busy" | "stopreq" | "drainreq" => {
+                let _ = kids[j].send_message(WMsg::Block);
+                quiesce(&env.crt);
+                if st == "stopreq" {
+                    kids[j].stop(None);
+                } else if st == "drainreq" {
+                    let _ = kids[j].drain();
+                }
+            }
+            "dead" => kids[j].stop(None),
+            o => panic!("unknown child state {o}"),
+        }
+        quiesce(&env.crt);
+    }
+    let _ = verif::take_notes();
+    let statuses = |env: &Env| -> String {
+        quiesce(&env.crt);
+        kids.iter().map(|c| (c.get_status() as u8).to_string()).collect::<Vec<_>>().join(",")
+    };
+    let st0 = statuses(env);
+    env.log.rec(format!("wcase {kind} t={} {}", timed as u8, states.join(",")), format!("ok kids={st0}"));
+    env.st.bump("wrapper_cases");
+    env.st.bump(&format!("wrapper_{kind}"));
+    for s in states {
+        env.st.bump(&format!("wchild_{s}"));
+    }
+
+    let mut task: Option<tokio::task::JoinHandle<String>> = None;
+    let mut finished: Option<String> = None;
+    let mut reported = false;
+    let mut acc = String::from("-");
+    let mut full: Vec<WOp> = script.to_vec();
+    // close the case: let every child go, then look once more
+    for j in 0..k {
+        full.push(WOp::Release(j));
+    }
+    let nscript = script.len();
+    for (n, op) in full.iter().enumerate() {
+        let opname = match op {
+            WOp::Wrap => {
+                if task.is_some() {
+                    continue;
+                }
+                // the children of the snapshot `get_children()` will take, and whether each accepts this call's request
+                let snap_ids: Vec<ractor::ActorId> = sup.get_children().iter().map(|c| c.get_id()).collect();
+                acc = kids
+                    .iter()
+                    .map(|c| {
+                        let inside = snap_ids.contains(&c.get_id());
+                        let a = inside && if kind == "stop" { c.verif_ports_open().0 } else { true };
+                        (a as u8).to_string()
+                    })
+                    .collect::<Vec<_>>()
+                    .join(",");
+                let sup2 = sup.clone();
+                let kids2: Vec<ActorCell> = kids.iter().map(|c| c.get_cell()).collect();
+                let (names2, posts2, group2) = (names.clone(), posts.clone(), group.clone());
+                let to = if timed { Some(Duration::from_secs(10)) } else { None };
+                let kind2 = kind.to_string();
+                task = Some(env.crt.spawn(async move {
+                    if kind2 == "stop" {
+                        sup2.stop_children_and_wait(None, to).await;
+                    } else {
+                        sup2.drain_children_and_wait(to).await;
+                    }
+                    // the moment the wrapper returned (nothing else runs in between on this runtime)
+                    let notes = verif::take_notes();
+                    let mut out = Vec::new();
+                    for (j, c) in kids2.iter().enumerate() {
+                        if !snap_ids.contains(&c.get_id()) {
+                            continue;
+                        }
+                        let ev = notes.iter().any(|n| matches!(n, verif::Note::Sup(s) if s.who == Some(c.get_id()) && (s.kind == "Terminated" || s.kind == "Failed")));
+                        out.push(format!(
+                            "{j}:{}:{}:{}:{}:{}:{}:{}",
+                            c.get_status() as u8,
+                            ractor::registry::where_is(names2[j].clone()).is_some() as u8,
+                            ractor::registry::where_is_pid(c.get_id()).is_some() as u8,
+                            ractor::pg::get_members(&group2).iter().any(|m| m.get_id() == c.get_id()) as u8,
+                            c.try_get_supervisor().is_some() as u8,
+                            posts2[j].load(Ordering::SeqCst) as u8,
+                            ev as u8
+                        ));
+                    }
+                    if out.is_empty() { "-".to_string() } else { out.join(",") }
+                }));
+                "wrap".to_string()
+            }
+            WOp::Release(j) => {
+                gates[*j].add_permits(1);
+                if n >= nscript { format!("release {j}") } else { format!("release {j}") }
+            }
+            WOp::Kill(j) => {
+                kids[*j].kill();
+                format!("kill {j}")
+            }
+            WOp::Advance => {
+                env.crt.block_on(async { tokio::time::sleep(Duration::from_secs(20)).await });
+                "advance".to_string()
+            }
+        };
+        let st = statuses(env);
+        if finished.is_none() {
+            if let Some(t) = &task {
+                if t.is_finished() {
+                    let t = task.take().unwrap();
+                    finished = Some(env.crt.block_on(t).unwrap_or_else(|_| "panicked".to_string()));
+                    task = None;
+                }
+            }
+        }
+        let w = if finished.is_some() { "done" } else if task.is_some() { "pending" } else { "-" };
+        let snap = match (&finished, reported) {
+            (Some(s), false) => {
+                reported = true;
+                format!(" snap={s}")
+            }
+            _ => String::new(),
+        };
+        env.log.rec(opname, format!("w={w} kids={st} acc={acc}{snap}"));
+        env.st.bump("wrapper_ops");
+    }
+    let st = statuses(env);
+    let w = if finished.is_some() { "done" } else if task.is_some() { "pending" } else { "-" };
+    env.log.rec("wend".to_string(), format!("w={w} kids={st} acc={acc}"));
+    if let Some(t) = task {
+        t.abort();
+    }
+    for c in &kids {
+        c.kill();
+    }
+    sup_ref.stop(None);
+    quiesce(&env.crt);
+    let _ = verif::take_notes();
+}
+
+fn random_wrapper_case(env: &mut Env, rng: &mut Rng) {
+    let mut r = rng.fork();
+    let kind = *r.pick(&["stop", "stop", "drain"]);
+    let timed = r.chance(1, 2);
+    let k = r.range(1, 4) as usize;
+    let states: Vec<String> = (0..k).map(|_| r.pick(&["idle", "busy", "busy", "stopreq", "drainreq", "dead"]).to_string()).collect();
+    let mut script = Vec::new();
+    // sometimes a child is let go before the call
+    if r.chance(1, 4) {
+        script.push(WOp::Release(r.below(k as u64) as usize));
+    }
+    script.push(WOp::Wrap);
+    let n = r.range(0, 4);
+    for _ in 0..n {
+        let j = r.below(k as u64) as usize;
+        script.push(match r.below(6) {
+            0 => WOp::Kill(j),
+            1 if timed => WOp::Advance,
+            _ => WOp::Release(j),
+        });
+    }
+    wrapper_case(env, kind, timed, &states, &script);
+}
+
+fn parse_wcase(head: &[&str], body: &[&str]) -> (String, bool, Vec<String>, Vec<WOp>) {
+    let kind = head[1].to_string();
+    let timed = head[2] == "t=1";
+    let states: Vec<String> = head[3].split(',').map(|s| s.to_string()).collect();
+    let mut script = Vec::new();
+    for l in body {
+        let w: Vec<&str> = l.split_whitespace().collect();
+        match w.as_slice() {
+            ["wrap"] => script.push(WOp::Wrap),
+            ["release", j] => script.push(WOp::Release(j.parse().expect("child"))),
+            ["kill", j] => script.push(WOp::Kill(j.parse().expect("child"))),
+            ["advance"] => script.push(WOp::Advance),
+            _ => {}
+        }
+    }
+    // the closing releases are appended by `wrapper_case` itself
+    let k = states.len();
+    let tail: Vec<WOp> = (0..k).map(WOp::Release).collect();
+    if script.len() >= k && script[script.len() - k..] == tail[..] {
+        script.truncate(script.len() - k);
+    }
+    (kind, timed, states, script)
+}
+
 fn replay_file(env: &mut Env, path: &str) {
     let txt = std::fs::read_to_string(path).unwrap_or_else(|e| panic!("cannot read {path}: {e}"));
     let lines: Vec<&str> = txt.lines().collect();
     let mut i = 0;
     while i < lines.len() {
         let w: Vec<&str> = lines[i].split_whitespace().collect();
+        if w.first() == Some(&"wcase") && w.len() == 4 {
+            let mut j = i + 1;
+            while j < lines.len() && !lines[j].starts_with("case ") && !lines[j].starts_with("wcase ") && !lines[j].starts_with("xstress ") {
+                j += 1;
+            }
+            let (kind, timed, states, script) = parse_wcase(&w, &lines[i + 1..j]);
+            wrapper_case(env, &kind, timed, &states, &script);
+            env.st.bump("replayed_cases");
+            i = j;
+            continue;
+        }
         let (cause, n, ndrain, forms) = match w.as_slice() {
             ["case", c, n] => (c.to_string(), n.parse::<usize>().expect("n"), 0, None),
             ["case", c, n, d] => (c.to_string(), n.parse::<usize>().expect("n"), d.parse::<usize>().expect("d"), None),
@@ -945,7 +1222,7 @@ fn replay_file(env: &mut Env, path: &str) {
         assert_eq!(kinds.len(), n, "forms= must list one form per waiter");
         let mut sched = Vec::new();
         i += 1;
-        while i < lines.len() && !lines[i].starts_with("case ") {
+        while i < lines.len() && !lines[i].starts_with("case ") && !lines[i].starts_with("wcase ") {
             let w: Vec<&str> = lines[i].split_whitespace().collect();
             match w.as_slice() {
                 ["step", "e", ..] => sched.push(Choice::E),
@@ -1065,6 +1342,22 @@ fn main() {
                 }
             }
             random_case(&mut env, &mut rng, cause, &kinds, ndrain);
+        }
+    }
+    let wrappers = args.u64("wrappers", 0);
+    if wrappers > 0 && args.u64("only-replay", 0) == 0 {
+        let sv = |l: &[&str]| -> Vec<String> { l.iter().map(|s| s.to_string()).collect() };
+        use WOp::*;
+        // children in every state under one call; the refused child is still running when the wrapper returns
+        wrapper_case(&mut env, "stop", false, &sv(&["idle", "busy", "stopreq", "drainreq", "dead"]), &[Wrap, Release(1), Release(3), Release(2)]);
+        wrapper_case(&mut env, "stop", false, &sv(&["stopreq"]), &[Wrap]);
+        wrapper_case(&mut env, "drain", false, &sv(&["idle", "busy", "stopreq", "drainreq", "dead"]), &[Wrap, Release(3), Release(1), Release(2)]);
+        wrapper_case(&mut env, "stop", true, &sv(&["busy", "idle", "drainreq"]), &[Wrap, Advance, Release(0)]);
+        wrapper_case(&mut env, "drain", true, &sv(&["busy", "busy"]), &[Wrap, Release(1), Advance]);
+        wrapper_case(&mut env, "stop", false, &sv(&["busy", "busy"]), &[Wrap, Kill(0), Release(1)]);
+        wrapper_case(&mut env, "drain", false, &sv(&["stopreq", "drainreq"]), &[Wrap, Kill(1), Release(0)]);
+        for _ in 0..wrappers {
+            random_wrapper_case(&mut env, &mut rng);
         }
     }
     let stress = args.u64("stress", 0);
